@@ -118,6 +118,29 @@ SoloCases ==
           CallE(CallE(V("mk"), <<H(1), H(5)>>), <<>>)>>,
         T2(1, 2)) : c \in SoloConstructs, d \in DOMAIN SoloDecl}
 
+\* loop bodies that READ the outer x and only later declare their own x (of another type): every round starts with a
+\* fresh scope, also after a round that ended with `continue'
+LateBody(extra) == <<Asg("=", V("acc"), Bin("+", Bin("*", Deref(V("acc")), I(10)), V("x")))>> \o extra \o <<Set("x", Str)>>
+LateLoop(c) ==
+  CASE c = "loop" -> <<Set("k", MutE(WInt, I(0))), Loop(Block(<<Asg("+=", V("k"), I(1)), If1(Bin(">", Deref(V("k")), I(3)), Break)>> \o LateBody(<<>>)))>>
+    [] c = "loop-continue" -> <<Set("k", MutE(WInt, I(0))),
+                               Loop(Block(<<Asg("+=", V("k"), I(1)), If1(Bin(">", Deref(V("k")), I(3)), Break)>>
+                                          \o <<Asg("=", V("acc"), Bin("+", Bin("*", Deref(V("acc")), I(10)), V("x"))), Set("x", Str),
+                                               If1(Bin("==", Deref(V("k")), I(1)), ContinueS), Set("z", I(0))>>))>>
+    [] c = "while" -> <<Set("k", MutE(WInt, I(0))), While(Bin("<", Deref(V("k")), I(3)), Block(<<Asg("+=", V("k"), I(1))>> \o LateBody(<<>>)))>>
+    [] c = "while-true" -> <<Set("k", MutE(WInt, I(0))), While(B(TRUE), Block(<<Asg("+=", V("k"), I(1)), If1(Bin(">", Deref(V("k")), I(3)), Break)>> \o LateBody(<<>>)))>>
+    [] c = "for" -> <<For("e", IterE(ArrE(<<I(7), I(8), I(9)>>)), Block(LateBody(<<>>)))>>
+    [] c = "loop-closure" -> <<Set("k", MutE(WInt, I(0))),
+                              Loop(Block(<<Asg("+=", V("k"), I(1)), If1(Bin(">", Deref(V("k")), I(3)), Break),
+                                           Set("rd", FnE(<<>>, WInt, <<Ret(V("x"))>>)),
+                                           Asg("=", V("acc"), Bin("+", Bin("*", Deref(V("acc")), I(10)), CallE(V("rd"), <<>>))), Set("x", Str)>>))>>
+LateKinds == {"loop", "loop-continue", "while", "while-true", "for", "loop-closure"}
+LateCases ==
+  {Case("late-decl-" \o c \o "-" \o o, <<Set("x", Outer[o]), Set("acc", MutE(WInt, I(0)))>> \o LateLoop(c) \o <<TupE(<<Deref(V("acc")), V("x")>>)>>,
+        T2(111, 1)) : c \in LateKinds, o \in DOMAIN Outer}
+  \cup {Case("late-decl-fn-" \o c, <<FnDecl("lf", <<P("x", WInt)>>, WTup(<<WInt, WInt>>), <<Set("acc", MutE(WInt, I(0)))>> \o LateLoop(c) \o <<Ret(TupE(<<Deref(V("acc")), V("x")>>))>>),
+                                       CallE(V("lf"), <<H(1)>>)>>, T2(111, 1)) : c \in LateKinds}
+
 \* a name that is re-declared — a constant as a function, a function with another signature, a function as a constant —
 \* means the NEW declaration from then on, in every kind of scope
 F0(n, v) == FnDecl(n, <<>>, WInt, <<Ret(I(v))>>)
@@ -305,6 +328,16 @@ CaptureCases == {
   Case("destruct-rotate", <<Set("x", H(1)), Set("y", H(2)), Set("z", H(3)), Destruct(<<"x", "y", "z">>, TupE(<<V("y"), V("z"), V("x")>>)), TupE(<<V("x"), V("y"), V("z")>>)>>, T3(2, 3, 1)),
   Case("destruct-closure-sees-old", <<Set("a", H(1)), Set("b", H(2)), Destruct(<<"a", "get">>, TupE(<<V("b"), FnE(<<>>, WInt, <<Ret(V("a"))>>)>>)),
                                       TupE(<<V("a"), CallE(V("get"), <<>>)>>)>>, TupV(<<IntV(2), IntV(1)>>)),
+  Case("destruct-swap-mixed", <<Set("c", MutE(WInt, I(7))), Set("a", H(1)), Set("b", Deref(V("c"))), Destruct(<<"a", "b">>, TupE(<<V("b"), V("a")>>)), TupE(<<V("a"), V("b")>>)>>,
+       TupV(<<IntV(7), IntV(1)>>)),
+  Case("destruct-self-reference-top", <<Set("c", MutE(WInt, I(7))), Set("x", Deref(V("c"))), Destruct(<<"x", "y">>, TupE(<<H(0), Bin("+", V("x"), I(1))>>)), TupE(<<V("x"), V("y")>>)>>,
+       TupV(<<IntV(0), IntV(8)>>)),
+  \* the else branch of an if-set names the binder: it means the ENCLOSING variable, whose value differs from the tested one
+  Case("ifset-else-sees-outer-not-tested", <<FnDecl("f", <<P("x", WInt), P("v", WMulti(<<WInt, WStr>>))>>, WAny,
+                                                    <<IfSet("x", WInt, V("v"), Block(<<Ret(I(-1))>>), Block(<<Ret(V("x"))>>)), Ret(I(-2))>>),
+                                             TupE(<<CallE(V("f"), <<H(7), S(<<115>>)>>), CallE(V("f"), <<H(7), H(3)>>)>>)>>, TupV(<<IntV(7), IntV(-1)>>)),
+  Case("ifset-else-value-sees-outer", <<Set("x", H(7)), Set("v", Hide(WMulti(<<WInt, WStr>>), S(<<115>>))),
+                                        Set("r", IfSet("x", WInt, V("v"), I(-1), Bin("+", V("x"), I(1)))), TupE(<<V("r"), V("x")>>)>>, TupV(<<IntV(8), IntV(7)>>)),
   Case("destruct-swap-in-fn", <<FnDecl("sw", <<P("a", WInt), P("b", WInt)>>, WTup(<<WInt, WInt>>), <<Destruct(<<"a", "b">>, TupE(<<V("b"), V("a")>>)), Ret(TupE(<<V("a"), V("b")>>))>>),
                                 CallE(V("sw"), <<H(1), H(2)>>)>>, TupV(<<IntV(2), IntV(1)>>)),
   Case("set-self-reference", <<Set("x", H(1)), Set("x", Block(<<Set("x", Bin("+", V("x"), I(1))), Bin("*", V("x"), I(10))>>)), V("x")>>, IntV(20)),
@@ -439,7 +472,7 @@ ModCases == {
 }
 
 \* int / bool / struct values cannot share one TLC set: keep the suites in separate sequences
-CaseSeq == SetToSeq(ShadowCases) \o SetToSeq(SoloCases) \o SetToSeq(RedeclCases) \o SetToSeq(CapturedCases) \o SetToSeq(CaptureCases) \o SetToSeq(RecCases) \o SetToSeq(NoisyCases) \o <<HelperCase>> \o SetToSeq(ModCases)
+CaseSeq == SetToSeq(ShadowCases) \o SetToSeq(SoloCases) \o SetToSeq(LateCases) \o SetToSeq(RedeclCases) \o SetToSeq(CapturedCases) \o SetToSeq(CaptureCases) \o SetToSeq(RecCases) \o SetToSeq(NoisyCases) \o <<HelperCase>> \o SetToSeq(ModCases)
 N == Len(CaseSeq)
 Fuel == 3000
 Out(i) == Outcome(Run(CaseSeq[i].prog, Fuel))
